@@ -1,6 +1,7 @@
 # C01 — replies come back in request order, exactly one per request
 import vlib
 from props.c03 import check_program
+from props.common import differential, add_corr
 
 
 def run(rep, tier, seed, replay):
@@ -14,5 +15,15 @@ def run(rep, tier, seed, replay):
     pr = vlib.prove(rep, PROP)
     vlib.prepare_runners()
     found = check_program(rep, PROP, "c01", tier, seed, replay, 200, 5000, "Pipelined and concurrent connections with slow nodes vs the model (replies in order, one each)")
+    # framing only: one reply per request whatever the request contains (every command name, CR LF and reply look-alikes in every argument)
+    res = differential(rep, PROP, "c01frame", seed + 5, 150 if tier == "quick" else 20000, tier, model_modes=[])
+    cases, impl = res["cases"], res["impl"]
+    bad = [i for i in range(len(cases)) if impl[i] != "replies=%d" % (int(cases[i].split()[0]) + 1)]
+    add_corr(rep, "One reply per request for every command name with hostile arguments (replies counted up to a sentinel)", res, bad, len(set(cases)))
+    if bad and not found:
+        found = True
+        i = min(bad, key=lambda j: len(cases[j]))
+        rep.violation({"kind": "input", "oracle": "%s requests and the sentinel must produce exactly %d replies; observed: %s" % (cases[i].split()[0], int(cases[i].split()[0]) + 1, impl[i]),
+                       "case": {"line": cases[i], "format": "n token # requests (canonical tokens), then GET of a key holding the token"}, "impl": impl[i], "failing_cases": len(bad)})
     if not pr["ok"] and not found:
         rep.violation({"kind": "broken-tie", "theorem": pr.get("broken"), "detail": pr.get("tail"), "searched": "every pipeline received exactly its replies in order"}, found_input=False)
